@@ -4,6 +4,11 @@ use nix::unistd::{fork as nix_fork, ForkResult};
 // make fork "safe again", in order not to touch the code in core.rs,
 // see https://github.com/nix-rust/nix/issues/586
 // we can have refactorings any time needed.
+#[allow(unreachable_code)]
 pub fn fork() -> Result<ForkResult> {
+    #[cfg(cicada_verif)]
+    {
+        return crate::verif::fork_hook(|| unsafe { nix_fork() });
+    }
     unsafe{ nix_fork() }
 }
